@@ -87,13 +87,10 @@ pub fn pool(tier: &str) -> Vec<Term> {
   v
 }
 
-/// Thorough tier: every tree of a reduced E1 scope (8 leaves of every kind, all pairs of 4 of them,
+/// Every (quick: every 8th) tree of a reduced E1 scope (8 leaves of every kind, all pairs of 4 of them,
 /// every single replacement over leaves and pairs, wrappers) - checked with observer prefixes of
 /// length <= 1, every single edit, and against every tree of the base pool.
 pub fn pool_extra(tier: &str) -> Vec<Term> {
-  if tier != "thorough" {
-    return vec![];
-  }
   let o = |t: &str| Term::orig(t, &trees::file_for(t, trees::TEXTS_FULL));
   let sms = trees::sms_leaves(&["ab\n", "a\nb"], 2, &[None, Some(K_A), Some(K_B)]);
   let nv = trees::named_variants();
@@ -132,6 +129,10 @@ pub fn pool_extra(tier: &str) -> Vec<Term> {
   v.dedup();
   let base = pool(tier);
   v.retain(|t| base.binary_search(t).is_err());
+  if tier != "thorough" {
+    // quick tier: every 8th tree of the family
+    v = v.into_iter().step_by(8).collect();
+  }
   v
 }
 
